@@ -351,7 +351,41 @@ func buildReplay(o CheckOpts, w *World, r *OblReport, rf *ReplayFile) {
 		}
 		return vals, out, true
 	}
-	vals, out, ok := ask("")
+	// prefer small inputs: bound every slice length first, relax when unsatisfiable
+	var lenTerms []string
+	var collect func(n *planNode)
+	collect = func(n *planNode) {
+		if n.kind == "slice" {
+			lenTerms = append(lenTerms, g.terms[n.comps[2]])
+		}
+		for _, c := range n.children {
+			collect(c)
+		}
+	}
+	for _, p := range plans {
+		collect(p)
+	}
+	var vals []ModelVal
+	var out string
+	ok := false
+	sizeBound := ""
+	if len(lenTerms) > 0 {
+		for _, bound := range []int64{1, 2, 4, 8, 16, 64, 1024} {
+			var cs []string
+			for _, lt := range lenTerms {
+				cs = append(cs, t.cmpIdx("<=", lt, t.mode.intLit64(bound, 64)))
+			}
+			sizeBound = and(cs...)
+			vals, out, ok = ask(sizeBound)
+			if ok {
+				break
+			}
+			sizeBound = ""
+		}
+	}
+	if !ok {
+		vals, out, ok = ask("")
+	}
 	if !ok {
 		rf.Note = "could not obtain model values: " + firstLines(out, 5)
 		return
@@ -369,7 +403,7 @@ func buildReplay(o CheckOpts, w *World, r *OblReport, rf *ReplayFile) {
 				pins = append(pins, eq(g.terms[i], vals[i].Raw))
 			}
 		}
-		v2, out2, ok2 := ask(and(pins...))
+		v2, out2, ok2 := ask(and(append(pins, sizeBound)...))
 		if !ok2 {
 			rf.Note = "could not obtain slice contents from the model: " + firstLines(out2, 5)
 			return
@@ -621,6 +655,9 @@ func (g *replayGen) goExpr(x ast.Expr, pkg *types.Package, ren map[string]string
 				return "math.Float64frombits(" + args[0] + ")"
 			case "nonnil":
 				return "(" + args[0] + " != nil)"
+			case "feq":
+				g.imports["math"] = "math"
+				return "(math.Float64bits(" + args[0] + ") == math.Float64bits(" + args[1] + ") || (math.IsNaN(" + args[0] + ") && math.IsNaN(" + args[1] + ")))"
 			}
 			if sp := g.w.specs[id.Name]; sp != nil {
 				g.emitSpec(sp)
